@@ -28,6 +28,10 @@ type ServeScenario struct {
 	// Reply: the handler uses the client itself (a request/response application publishes its QoS 0 answer from inside
 	// the handler); the handler must come back and the acknowledgement of the message must follow
 	Reply bool `json:"reply,omitempty"`
+	// Topic of the inbound messages (default "in"); scenarios also use names with multi-byte UTF-8 characters
+	Topic string `json:"topic,omitempty"`
+	// Faults: write faults on the client's acknowledgements (e.g. the first PUBCOMP cannot be written: cutBefore)
+	Faults []netsim.FaultRule `json:"faults,omitempty"`
 	// Batch: several scenarios in one line (amortises process/JSON overhead)
 	Batch []ServeScenario `json:"batch,omitempty"`
 }
@@ -37,6 +41,7 @@ type ServeScenario struct {
 type ServeResult struct {
 	ID      string          `json:"id"`
 	Handler bool            `json:"handler"`
+	Faulty  bool            `json:"faulty"`
 	TL      [][]interface{} `json:"tl"`
 	Err     string          `json:"err"`
 	Batch   []*ServeResult  `json:"batch,omitempty"`
@@ -60,8 +65,8 @@ func runServeRaw(raw json.RawMessage) interface{} {
 }
 
 func runServe(sc *ServeScenario) *ServeResult {
-	res := &ServeResult{ID: sc.ID, Handler: sc.Handler, TL: [][]interface{}{}}
-	w := netsim.NewWorld(netsim.Plan{})
+	res := &ServeResult{ID: sc.ID, Handler: sc.Handler, Faulty: len(sc.Faults) > 0, TL: [][]interface{}{}}
+	w := netsim.NewWorld(netsim.Plan{Writes: append([]netsim.FaultRule{}, sc.Faults...)})
 	w.AutoRelease = false
 	ctx, cancel := context.WithTimeout(context.Background(), 5*time.Second)
 	defer cancel()
@@ -94,7 +99,11 @@ func runServe(sc *ServeScenario) *ServeResult {
 	for i, l := range sc.Letters {
 		switch l.P {
 		case "PUB":
-			w.Send(t, netsim.Publish("in", netsim.PayloadOf(i+1), l.Q, l.ID, l.Dup, false))
+			topic := sc.Topic
+			if topic == "" {
+				topic = "in"
+			}
+			w.Send(t, netsim.Publish(topic, netsim.PayloadOf(i+1), l.Q, l.ID, l.Dup, false))
 		case "REL":
 			w.Send(t, netsim.Ack(0x62, l.ID))
 		}
@@ -125,6 +134,9 @@ func runServe(sc *ServeScenario) *ServeResult {
 		case "Write":
 			if !started || e["p"] == "PINGREQ" || e["p"] == "CONNECT" || e["p"] == "PUBLISH" {
 				continue // (PUBLISH: the handler's own reply, not an acknowledgement)
+			}
+			if e["ok"] == false {
+				continue // the write failed: nothing went out (the close event follows)
 			}
 			res.TL = append(res.TL, []interface{}{"out", e["p"], e["id"]})
 		case "Close":
